@@ -391,6 +391,20 @@ def gen_simple(rng, dop, tries=40):
     raise Unsupported("no canonical value found")
 
 
+def _with_duplicates(rng, items):
+    """field values in which items compare equal (`==`) or are the very same object: in 30 % of the lists with >= 2 items one item is
+    replaced by (a copy of / the identical object as) another one — half of the time an earlier item becomes equal to the LAST one.
+    (Code that finds "the last item" by value instead of by position is only wrong on such lists.)"""
+    import copy
+    if len(items) >= 2 and rng.random() < 0.3:
+        if rng.random() < 0.5:
+            src, dst = len(items) - 1, rng.randrange(len(items) - 1)
+        else:
+            src, dst = rng.sample(range(len(items)), 2)
+        items[dst] = items[src] if rng.random() < 0.5 else copy.deepcopy(items[src])
+    return items
+
+
 def gen_dop_value(rng, dop, siblings=None, sib_params=None):
     if isinstance(dop, D.SimpleDop):
         return gen_simple(rng, dop)[0]
@@ -399,13 +413,13 @@ def gen_dop_value(rng, dop, siblings=None, sib_params=None):
     if isinstance(dop, D.Struct):
         return gen_params_value(rng, dop.params)
     if isinstance(dop, D.StaticField):
-        return [gen_params_value(rng, dop.item.params) for _ in range(dop.count)]
+        return _with_duplicates(rng, [gen_params_value(rng, dop.item.params) for _ in range(dop.count)])
     if isinstance(dop, D.DynLenField):
         p, x = None, None
         hi = 3
         if isinstance(dop.countdop.dct, D.Std):
             hi = min(3, int_range(dop.countdop.dct.bt, dop.countdop.dct.enc, dop.countdop.dct.bitlen)[1])
-        return [gen_params_value(rng, dop.item.params) for _ in range(rng.randint(0, hi))]
+        return _with_duplicates(rng, [gen_params_value(rng, dop.item.params) for _ in range(rng.randint(0, hi))])
     if isinstance(dop, D.EndMarkerField):
         out = []
         for _ in range(rng.randint(0, 3)):
@@ -417,11 +431,11 @@ def gen_dop_value(rng, dop, siblings=None, sib_params=None):
             else:
                 raise Unsupported("end marker collision")
             out.append(it)
-        return out
+        return _with_duplicates(rng, out)
     if isinstance(dop, D.EopField):
         lo = dop.min or 0
         hi = dop.max if dop.max is not None else lo + 3
-        return [gen_params_value(rng, dop.item.params) for _ in range(rng.randint(lo, min(hi, lo + 3)))]
+        return _with_duplicates(rng, [gen_params_value(rng, dop.item.params) for _ in range(rng.randint(lo, min(hi, lo + 3)))])
     if isinstance(dop, D.Mux):
         choices = [("case", c) for c in dop.cases]
         if dop.default is not None:
